@@ -602,9 +602,9 @@ func (o *orch) finish(t0 time.Time, detOK bool, detN int) int {
 		"distinct_states":     len(states),
 		"distinct_states_def": p.StateDef,
 		"probes":              probes,
-		"components":          map[string]interface{}{"real": p.Real, "stub": p.Stub, "instrumented": p.Instr},
+		"components":          map[string]interface{}{"real": nonNil(p.Real), "stub": nonNil(p.Stub), "instrumented": nonNil(p.Instr)},
 		"engines":             perEngine,
-		"known_findings":      knownLines,
+		"known_findings":      nonNil(knownLines),
 		"violation_classes":   vcounts,
 		"determinism_recheck": map[string]interface{}{"runs_repeated_in_fresh_process": detN, "all_digests_equal": detOK},
 		"exhaustive":          false,
@@ -661,6 +661,13 @@ func (o *orch) finish(t0 time.Time, detOK bool, detN int) int {
 		return 1
 	}
 	return 0
+}
+
+func nonNil(s []string) []string {
+	if s == nil {
+		return []string{}
+	}
+	return s
 }
 
 func round1(f float64) float64 { return float64(int64(f*10+0.5)) / 10 }
